@@ -150,16 +150,24 @@ func (e *Endpoint) Close() error {
 func (e *Endpoint) LocalAddr() net.Addr  { return theAddr }
 func (e *Endpoint) RemoteAddr() net.Addr { return theAddr }
 
+func (e *Endpoint) anyWorld() *simrt.World {
+	w := simrt.Any()
+	if w == nil {
+		panic("simnet: endpoint used outside a simulated world")
+	}
+	return w
+}
+
 func (e *Endpoint) SetDeadline(t time.Time) error {
-	e.world().Notify(&simrt.Req{Kind: simrt.NDeadline, Res: e, T: t, Arg: 3})
+	e.anyWorld().Notify(&simrt.Req{Kind: simrt.NDeadline, Res: e, T: t, Arg: 3})
 	return nil
 }
 func (e *Endpoint) SetReadDeadline(t time.Time) error {
-	e.world().Notify(&simrt.Req{Kind: simrt.NDeadline, Res: e, T: t, Arg: 1})
+	e.anyWorld().Notify(&simrt.Req{Kind: simrt.NDeadline, Res: e, T: t, Arg: 1})
 	return nil
 }
 func (e *Endpoint) SetWriteDeadline(t time.Time) error {
-	e.world().Notify(&simrt.Req{Kind: simrt.NDeadline, Res: e, T: t, Arg: 2})
+	e.anyWorld().Notify(&simrt.Req{Kind: simrt.NDeadline, Res: e, T: t, Arg: 2})
 	return nil
 }
 
@@ -410,14 +418,17 @@ type Net struct {
 	DialFault func(w *simrt.World, n int, address string) error
 	nlinks    int
 	LinkSetup func(l *Link)
+	// StampFn, if set, stamps every dial with the scenario's global event sequence number.
+	StampFn func() int64
 }
 
 type DialRecord struct {
 	Addr string
 	Task string
 	Err  string
-	Link *Link
-	Step int
+	Link  *Link
+	Step  int
+	Stamp int64
 }
 
 var curNet *Net
@@ -445,6 +456,9 @@ func (n *Net) Listen(address string) *Listener {
 
 func (l *Listener) Name() string { return "listener:" + l.addr }
 func (l *Listener) Ready(w *simrt.World, r *simrt.Req) (bool, time.Time) {
+	if r.Kind == simrt.KClose {
+		return true, time.Time{}
+	}
 	return len(l.queue) > 0 || l.closed, time.Time{}
 }
 func (l *Listener) Do(w *simrt.World, r *simrt.Req) (int, error) {
@@ -499,6 +513,9 @@ func (d dialRes) Do(w *simrt.World, r *simrt.Req) (int, error) {
 	n := d.n
 	address := *(*string)(r.Ptr)
 	rec := DialRecord{Addr: address, Step: w.Steps}
+	if n.StampFn != nil {
+		rec.Stamp = n.StampFn()
+	}
 	if t := r.Task(); t != nil {
 		rec.Task = t.Name
 	}
